@@ -21,6 +21,13 @@ case " $* " in *" C18 "*)
   ln -sfn $EXP/harness $EXP/root/harness
   (cd $EXP/root/asan && RUSTFLAGS="-Zsanitizer=address" CARGO_NET_OFFLINE=true cargo +nightly build --release --offline --target x86_64-unknown-linux-gnu >$EXP/build_asan.log 2>&1) || { echo "asan build failed"; tail -3 $EXP/build_asan.log; }
   ;; esac
+case " $* " in *" C12 "*)
+  # C12 needs the hooks-off probe, built against the scratch worktree as well
+  mkdir -p $EXP/root/nohooks; rsync -a --delete --exclude target /verif/nohooks/ $EXP/root/nohooks/
+  sed -i "s#path = \"/repo\"#path = \"$EXP/repo\"#" $EXP/root/nohooks/Cargo.toml
+  ln -sfn $EXP/harness $EXP/root/harness
+  (cd $EXP/root/nohooks && CARGO_NET_OFFLINE=true cargo build --release --offline >$EXP/build_nohooks.log 2>&1) || { echo "nohooks build failed"; tail -3 $EXP/build_nohooks.log; }
+  ;; esac
 for id in "$@"; do
   out=$(cd $EXP/root && VERIF_ROOT=$EXP/root RUST_LOG=off timeout 3000 $EXP/harness/target/release/pmh-verif run "$id" "$TIER" 2>/dev/null | grep -E "^(VIOLATION|OK)|reason" | head -2 | tr '\n' ' ' | cut -c1-330)
   echo "  [$id $TIER exp] $out"
